@@ -20,15 +20,19 @@ says that the decoder's inflater is that codec.
 What is *not* read back unchanged, found while proving, is stated exactly and not hidden:
 
 * a blob of length 0 given as EXIF, palette or transparency is written as a chunk of length 0, which
-  the decoder never parses: `Some([])` comes back as `None` (`nonEmpty`;
-  `C17_roundtrip_exif_partial` / `_counterexample`);
+  today's decoder never parses: `Some([])` comes back as `None`.  The planned repair of the decoder
+  (empty chunks are parsed like any other) is behind the single switch
+  `EncodeMeta.parseEmptyChunks`; all theorems below are proved for both values of the switch
+  (`nonEmpty`, `trnsRead` mention it), and the three `C17_roundtrip_exif_*` theorems say which of
+  "full statement" / "counterexample" holds for which value;
 * tRNS comes back in the decoder's form (`trnsStored`: low bytes of the samples for grayscale/RGB below
   16 bits) and only when it applies to the colour type (`trnsTaken`), otherwise it is skipped;
-* an iTXt chunk with `compressed = false` that still holds a compressed payload is written inflated
-  and unchecked; if the payload is not UTF-8 the decoder *rejects the file*
-  (`C17_roundtrip_itxt_partial` / `_counterexample`);
 * with sRGB the accessors return the substitutes and the ICC profile is not written — that one is
   documented (`C17_srgb_override`).
+
+(An iTXt chunk with `compressed = false` that still holds a compressed payload used to be written
+inflated and unchecked, producing a file the decoder rejects when the payload is not UTF-8; since
+/repo commit 6a09087 such a chunk is refused — `C17_roundtrip_itxt` now holds without exception.)
 -/
 namespace Png.C17
 open Png Png.Framing Png.EncodeMeta
@@ -124,11 +128,10 @@ theorem C17_roundtrip_exif_partial (cfg : Cfg) (d : Dec) (b : Bytes) (hb : b ≠
   obtain ⟨d', h1, h2⟩ := feed_exif cfg d i _ _ _ _ b (by simpa using hf) (ms_of d i hi hn)
   refine ⟨d', i, hi, h1, ?_⟩
   have := congrArg MS.info h2
-  cases b with
-  | nil => exact absurd rfl hb
-  | cons x b => exact this
+  rw [nonEmpty_some, skipped_of_ne b hb] at this
+  exact this
 
-/-- what really happens for every block, the empty one included -/
+/-- what really happens for every block, the empty one included, for either value of the switch -/
 theorem C17_roundtrip_exif (cfg : Cfg) (d : Dec) (b : Bytes) (ha : Acceptable d (fun i => i.exif.isNone)) :
     ∃ d' i, d.info = some i ∧ feedChunk cfg d (eXIf, b) = .ok d' ∧
       d'.info = some { i with exif := nonEmpty (some b) } := by
@@ -136,30 +139,51 @@ theorem C17_roundtrip_exif (cfg : Cfg) (d : Dec) (b : Bytes) (ha : Acceptable d 
   obtain ⟨d', h1, h2⟩ := feed_exif cfg d i _ _ _ _ b (by simpa using hf) (ms_of d i hi hn)
   exact ⟨d', i, hi, h1, congrArg MS.info h2⟩
 
-/-- the empty EXIF block: written as an eXIf chunk of length 0, not seen by the decoder -/
-theorem C17_roundtrip_exif_counterexample : ¬ C17_roundtrip_exif_statement := by
-  intro h
-  obtain ⟨d', i, hi, h1, h2⟩ := h (cfgOf toyCodec)
+/-- with the decoder repair (empty chunks are parsed) the full statement holds -/
+theorem C17_roundtrip_exif_of_parseEmpty (h : parseEmptyChunks = true) : C17_roundtrip_exif_statement := by
+  intro cfg d b ha
+  obtain ⟨d', i, hi, h1, h2⟩ := C17_roundtrip_exif cfg d b ha
+  refine ⟨d', i, hi, h1, ?_⟩
+  rw [h2, nonEmpty_some]
+  simp [skipped, h]
+
+/-- with today's decoder it does not: the empty EXIF block is written as an eXIf chunk of length 0,
+which the decoder does not see -/
+theorem C17_roundtrip_exif_counterexample (h : parseEmptyChunks = false) : ¬ C17_roundtrip_exif_statement := by
+  intro hst
+  obtain ⟨d', i, hi, h1, h2⟩ := hst (cfgOf toyCodec)
     { info := some { width := 1, height := 1, depth := 8, color := 0, interlaced := false } } []
     (by decide)
-  simp only [feedChunk_empty, Except.ok.injEq] at h1
+  rw [feedChunk_empty _ _ _ h] at h1
+  simp only [Except.ok.injEq] at h1
   subst h1
   simp only [Option.some.injEq] at hi
   subst hi
   revert h2
   decide
 
-/-- PLTE: every non-empty palette comes back byte for byte (its length is charged to `Limits`) -/
+/-- which of the two holds for the decoder as modelled now (compiles for either value of the switch) -/
+theorem C17_roundtrip_exif_current :
+    if parseEmptyChunks then C17_roundtrip_exif_statement else ¬ C17_roundtrip_exif_statement := by
+  cases h : parseEmptyChunks with
+  | true => simp only [if_true]; exact C17_roundtrip_exif_of_parseEmpty h
+  | false => simp only [Bool.false_eq_true, if_false]; exact C17_roundtrip_exif_counterexample h
+
+/-- PLTE: every non-empty palette — every palette once empty chunks are parsed — comes back byte for
+byte (its length is charged to `Limits`) -/
 theorem C17_roundtrip_plte (cfg : Cfg) (d : Dec) (b : Bytes) (hl : b.length ≤ d.limit)
     (ha : Acceptable d (fun i => i.palette.isNone)) :
     ∃ d' i, d.info = some i ∧ feedChunk cfg d (PLTE, b) = .ok d' ∧
-      d'.info = some { i with palette := nonEmpty (some b) } ∧ (b ≠ [] → nonEmpty (some b) = some b) := by
+      d'.info = some { i with palette := nonEmpty (some b) } ∧
+      (b ≠ [] ∨ parseEmptyChunks = true → nonEmpty (some b) = some b) := by
   obtain ⟨i, hi, hn, hf⟩ := ha.elim
   obtain ⟨d', h1, h2⟩ := feed_plte cfg d i _ _ _ _ b (by simpa using hf) hl (ms_of d i hi hn)
   refine ⟨d', i, hi, h1, congrArg MS.info h2, ?_⟩
-  intro hb; cases b with
-  | nil => exact absurd rfl hb
-  | cons x b => rfl
+  intro hb
+  rw [nonEmpty_some]
+  rcases hb with hb | hb
+  · rw [skipped_of_ne b hb]; rfl
+  · simp [skipped, hb]
 
 /-- tRNS: when the chunk applies to the colour type (`trnsTaken`: 2 bytes for grayscale, 6 for RGB, a
 palette seen for indexed) it is stored in the decoder's form (`trnsStored`: for indexed images and
@@ -169,16 +193,19 @@ theorem C17_roundtrip_trns (cfg : Cfg) (d : Dec) (b : Bytes) (hl : b.length ≤ 
     (ha : Acceptable d (fun i => i.trns.isNone)) :
     ∃ d' i, d.info = some i ∧ feedChunk cfg d (tRNS, b) = .ok d' ∧
       d'.info = some { i with trns := trnsRead i.color i.depth i.palette.isSome (some b) } ∧
-      (b ≠ [] → trnsTaken i.color i.palette.isSome b = true →
+      (b ≠ [] ∨ parseEmptyChunks = true → trnsTaken i.color i.palette.isSome b = true →
         trnsRead i.color i.depth i.palette.isSome (some b) = some (trnsStored i.color i.depth b)) ∧
       (i.color = 3 ∨ i.depth = 16 → trnsStored i.color i.depth b = b) := by
   obtain ⟨i, hi, hn, hf⟩ := ha.elim
   obtain ⟨d', h1, h2⟩ := feed_trns cfg d i _ _ _ _ b (by simpa using hf) hl (ms_of d i hi hn)
   refine ⟨d', i, hi, h1, congrArg MS.info h2, ?_, ?_⟩
   · intro hb ht
-    cases b with
-    | nil => exact absurd rfl hb
-    | cons x b => simp only [trnsRead, List.isEmpty_cons, Bool.false_eq_true, if_false, ht, if_true]
+    rw [trnsRead_some]
+    have : skipped b = false := by
+      rcases hb with hb | hb
+      · exact skipped_of_ne b hb
+      · simp [skipped, hb]
+    simp only [this, Bool.false_eq_true, if_false, ht, if_true]
   · intro h
     unfold trnsStored
     rcases h with h | h
@@ -223,47 +250,31 @@ theorem C17_roundtrip_ztxt (cfg : Cfg) (z : ZCodec) (hz : z.Ok) (d : Dec) (c : Z
   subst this
   exact ⟨d', i, tc, _, hi, h1, congrArg MS.info h2, hv, hk, hg⟩
 
-/-- Full statement for iTXt: every chunk the encoder accepts is read back with the same keyword,
-flag, language tag, translated keyword and text. -/
-def C17_roundtrip_itxt_statement : Prop :=
-  ∀ (cfg : Cfg) (z : ZCodec), z.Ok → CfgAgrees cfg z → ∀ (d : Dec) (c : ITXt) (body : Bytes),
-    c.encodeBody z = .ok body → body.length ≤ d.limit → d.opts.ignoreText = false →
-    Acceptable d (fun _ => true) →
-    ∃ d' i tc c', d.info = some i ∧ feedChunk cfg d (Framing.iTXt, body) = .ok d' ∧
-      d'.info = some { i with text := i.text ++ [tc] } ∧ viewText tc = some (.i c') ∧
-      c'.keyword = c.keyword ∧ c'.compressed = c.compressed ∧ c'.languageTag = c.languageTag ∧
-      c'.translatedKeyword = c.translatedKeyword ∧ c'.getText z = c.getText z
-
-/-- iTXt: true whenever the chunk holds a text (`get_text` succeeds) or is written compressed — i.e.
-always, except for a chunk obtained from a decoder whose compressed payload is not UTF-8 and whose
-`compressed` field was then cleared -/
-theorem C17_roundtrip_itxt_partial (cfg : Cfg) (z : ZCodec) (hz : z.Ok) (hc : CfgAgrees cfg z) (d : Dec)
-    (c : ITXt) (body : Bytes) (h : c.encodeBody z = .ok body) (ht : c.compressed = false → c.HasText z)
-    (hl : body.length ≤ d.limit) (ho : d.opts.ignoreText = false) (ha : Acceptable d (fun _ => true)) :
-    ∃ d' i tc c', d.info = some i ∧ feedChunk cfg d (Framing.iTXt, body) = .ok d' ∧
-      d'.info = some { i with text := i.text ++ [tc] } ∧ viewText tc = some (.i c') ∧
-      c'.keyword = c.keyword ∧ c'.compressed = c.compressed ∧ c'.languageTag = c.languageTag ∧
-      c'.translatedKeyword = c.translatedKeyword ∧ c'.getText z = c.getText z := by
-  obtain ⟨i, hi, hn, _⟩ := ha.elim
-  obtain ⟨d', tc, h1, hv, h2⟩ := feed_iTXt cfg d i _ _ _ _ z hc c body h ht hl ho (ms_of d i hi hn)
-  obtain ⟨e1, e2, e3, e4, e5⟩ := ITXt.readBack_same z hz c
-  exact ⟨d', i, tc, _, hi, h1, congrArg MS.info h2, hv, e1, e2, e3, e4, e5⟩
-
-/-- the excluded case is real: payload `0xFF` (toy-compressed), `compressed = false`: the encoder
-writes the byte `0xFF` as the text of an uncompressed iTXt chunk, and `parse_chunk` answers with a
-fatal `Unrepresentable` error — the file the encoder produced cannot be decoded -/
-theorem C17_roundtrip_itxt_counterexample : ¬ C17_roundtrip_itxt_statement := by
-  intro h
-  obtain ⟨d', i, tc, c', _, h1, _⟩ := h (cfgOf toyCodec) toyCodec toyCodec_ok ⟨fun _ _ => rfl, fun _ => rfl⟩
-    { info := some { width := 1, height := 1, depth := 8, color := 0, interlaced := false } }
-    ⟨"k", false, "", "", .compressed [0x78, 0xFF]⟩ [0x6B, 0, 0, 0, 0, 0, 0xFF] (by decide) (by decide)
-    rfl (by decide)
-  have : ((feedChunk (cfgOf toyCodec)
-      { info := some { width := 1, height := 1, depth := 8, color := 0, interlaced := false } }
-      (Framing.iTXt, [0x6B, 0, 0, 0, 0, 0, 0xFF])).map (fun d => d.info)) = .error (.format "Unrepresentable") := by
-    decide
-  rw [h1] at this
-  cases this
+/-- iTXt: every chunk the encoder accepts is read back with the same keyword, flag, language tag,
+translated keyword and text — the three ways a text can be held (plain; to be compressed; already
+compressed, to be written either way) alike.  The one kind of chunk that holds no text — a compressed
+payload, to be written uncompressed, that does not inflate or inflates to something that is not
+UTF-8 — is refused (`CompressionError` / `Unrepresentable`), so nothing the decoder would reject is
+ever written. -/
+theorem C17_roundtrip_itxt (cfg : Cfg) (z : ZCodec) (hz : z.Ok) (hc : CfgAgrees cfg z) (c : ITXt) :
+    (∀ (d : Dec) (body : Bytes), c.encodeBody z = .ok body → body.length ≤ d.limit →
+      d.opts.ignoreText = false → Acceptable d (fun _ => true) →
+      ∃ d' i tc c', d.info = some i ∧ feedChunk cfg d (Framing.iTXt, body) = .ok d' ∧
+        d'.info = some { i with text := i.text ++ [tc] } ∧ viewText tc = some (.i c') ∧
+        c'.keyword = c.keyword ∧ c'.compressed = c.compressed ∧ c'.languageTag = c.languageTag ∧
+        c'.translatedKeyword = c.translatedKeyword ∧ c'.getText z = c.getText z) ∧
+    (∀ (v data : Bytes), encodeKeyword c.keyword = .ok data → isAsciiStr c.languageTag = true →
+      NulFree c.languageTag → NulFree c.translatedKeyword → c.compressed = false → c.text = .compressed v →
+      (z.decompress v = none → c.encodeBody z = .error .compressionError) ∧
+      (∀ raw, z.decompress v = some raw → utf8Decode raw = none → c.encodeBody z = .error .unrepresentable)) := by
+  constructor
+  · intro d body h hl ho ha
+    obtain ⟨i, hi, hn, _⟩ := ha.elim
+    obtain ⟨d', tc, h1, hv, h2⟩ := feed_iTXt cfg d i _ _ _ _ z hc c body h hl ho (ms_of d i hi hn)
+    obtain ⟨e1, e2, e3, e4, e5⟩ := ITXt.readBack_same z hz c
+    exact ⟨d', i, tc, _, hi, h1, congrArg MS.info h2, hv, e1, e2, e3, e4, e5⟩
+  · intro v data hk hl hln htn hcf hs
+    exact iTXt_inflated_refused z c v data hk hl hln htn hcf hs
 
 /-! ## sRGB: the documented override -/
 
@@ -294,16 +305,14 @@ theorem C17_srgb_override (m : MetaConfig) :
 that satisfies its contract, a decoder that does not ignore text or ICC chunks and whose `Limits`
 cover what the chunks charge: feeding all chunks of the header, IHDR included, to a fresh decoder
 succeeds, and afterwards `Info` holds exactly `expectedInfo m` and presents the text chunks of `m`, in
-order, as `expectedViews z m`.  The only hypothesis about `m` beyond typing is that no iTXt chunk is
-of the kind excluded in `C17_roundtrip_itxt_partial`. -/
+order, as `expectedViews z m`.  There is no hypothesis about `m` beyond typing. -/
 theorem C17_header_roundtrip (cfg : Cfg) (z : ZCodec) (hz : z.Ok) (hc : CfgAgrees cfg z) (m : MetaConfig)
     (hr : m.InRange) (cs : List Chunk) (h : encodeHeaderChunks z m = .ok cs)
-    (ht : ∀ c ∈ m.iTXt, c.compressed = false → c.HasText z)
     (opts : Options) (ho1 : opts.ignoreText = false) (ho2 : opts.ignoreIccp = false)
     (lim : Nat) (hl : m.budget z ≤ lim) :
     ∃ d i, feedChunks cfg { opts := opts, limit := lim } cs = .ok d ∧ d.info = some i ∧ d.haveIdat = false ∧
       { i with text := [] } = expectedInfo m ∧ i.text.map viewText = expectedViews z m := by
-  obtain ⟨d, tcs, h1, hv, h2⟩ := header_roundtrip cfg z hz hc m hr cs h ht { opts := opts, limit := lim } lim opts none
+  obtain ⟨d, tcs, h1, hv, h2⟩ := header_roundtrip cfg z hz hc m hr cs h { opts := opts, limit := lim } lim opts none
     ho1 ho2 hl rfl
   exact ⟨d, _, h1, congrArg MS.info h2, congrArg MS.haveIdat h2, rfl, hv⟩
 
@@ -322,11 +331,11 @@ theorem C17_header_texts (z : ZCodec) (hz : z.Ok) (m : MetaConfig) :
   ⟨rfl, fun c => ⟨rfl, fun h => OptC.getText_compress hz latin1Coding_ok c.text h⟩,
    fun c => ITXt.readBack_same z hz c⟩
 
-/-- a configuration whose blobs survive as they are: no empty EXIF / palette / transparency, and a
-transparency that applies to the colour type -/
+/-- a configuration whose blobs survive as they are: a transparency that applies to the colour type
+and — while empty chunks are not parsed — no empty EXIF / palette / transparency -/
 def Clean (m : MetaConfig) : Prop :=
-  m.exif ≠ some [] ∧ m.palette ≠ some [] ∧
-  (∀ v, m.trns = some v → v ≠ [] ∧ trnsTaken m.color m.palette.isSome v = true)
+  (parseEmptyChunks = false → m.exif ≠ some [] ∧ m.palette ≠ some [] ∧ m.trns ≠ some []) ∧
+  (∀ v, m.trns = some v → trnsTaken m.color m.palette.isSome v = true)
 
 instance (m : MetaConfig) : Decidable (Clean m) := by
   unfold Clean
@@ -342,10 +351,9 @@ def C17_header_roundtrip_statement : Prop :=
     ∃ d i, feedChunks cfg { opts := opts, limit := lim } cs = .ok d ∧ d.info = some i ∧
       i.exif = m.exif ∧ i.palette = m.palette ∧ i.trns = m.trns.map (trnsStored m.color m.depth)
 
-/-- for clean configurations (and iTXt chunks that hold a text) the fields are read back as they are -/
+/-- for clean configurations the fields are read back as they are -/
 theorem C17_header_roundtrip_partial (cfg : Cfg) (z : ZCodec) (hz : z.Ok) (hc : CfgAgrees cfg z)
     (m : MetaConfig) (hr : m.InRange) (hclean : Clean m) (cs : List Chunk) (h : encodeHeaderChunks z m = .ok cs)
-    (ht : ∀ c ∈ m.iTXt, c.compressed = false → c.HasText z)
     (opts : Options) (ho1 : opts.ignoreText = false) (ho2 : opts.ignoreIccp = false)
     (lim : Nat) (hl : m.budget z ≤ lim) :
     ∃ d i, feedChunks cfg { opts := opts, limit := lim } cs = .ok d ∧ d.info = some i ∧
@@ -358,31 +366,39 @@ theorem C17_header_roundtrip_partial (cfg : Cfg) (z : ZCodec) (hz : z.Ok) (hc : 
       i.exif = m.exif ∧ i.actl = m.actl ∧ i.palette = m.palette ∧
       i.trns = m.trns.map (trnsStored m.color m.depth) ∧
       i.text.map viewText = expectedViews z m := by
-  obtain ⟨d, i, h1, h2, _, h4, h5⟩ := C17_header_roundtrip cfg z hz hc m hr cs h ht opts ho1 ho2 lim hl
-  obtain ⟨c1, c2, c3⟩ := hclean
+  obtain ⟨d, i, h1, h2, _, h4, h5⟩ := C17_header_roundtrip cfg z hz hc m hr cs h opts ho1 ho2 lim hl
+  obtain ⟨c0, c3⟩ := hclean
   have e : ∀ {α : Type} (f : Info → α), (∀ j : Info, f { j with text := [] } = f j) → f i = f (expectedInfo m) := by
     intro α f hf; rw [← h4, hf]
-  have hexif : nonEmpty m.exif = m.exif := by
-    cases hx : m.exif with
+  have keep : ∀ (o : Option Bytes), (parseEmptyChunks = false → o ≠ some []) → nonEmpty o = o := by
+    intro o ho
+    cases o with
     | none => rfl
-    | some b => cases b with
-      | nil => exact absurd hx c1
-      | cons x b => rfl
-  have hplte : nonEmpty m.palette = m.palette := by
-    cases hx : m.palette with
-    | none => rfl
-    | some b => cases b with
-      | nil => exact absurd hx c2
-      | cons x b => rfl
+    | some b =>
+      rw [nonEmpty_some]
+      have : skipped b = false := by
+        cases hsk : skipped b with
+        | false => rfl
+        | true =>
+          obtain ⟨hb, hp⟩ := skipped_true b hsk
+          exact absurd (by rw [hb]) (ho hp)
+      rw [this]; rfl
+  have hexif : nonEmpty m.exif = m.exif := keep _ (fun hp => (c0 hp).1)
+  have hplte : nonEmpty m.palette = m.palette := keep _ (fun hp => (c0 hp).2.1)
   have htrns : trnsRead m.color m.depth (nonEmpty m.palette).isSome m.trns = m.trns.map (trnsStored m.color m.depth) := by
     rw [hplte]
     cases hx : m.trns with
     | none => rfl
     | some v =>
-      obtain ⟨hv1, hv2⟩ := c3 v hx
-      cases v with
-      | nil => exact absurd rfl hv1
-      | cons x v => simp only [trnsRead, List.isEmpty_cons, Bool.false_eq_true, if_false, hv2, if_true, Option.map_some]
+      have hv2 := c3 v hx
+      rw [trnsRead_some]
+      have : skipped v = false := by
+        cases hsk : skipped v with
+        | false => rfl
+        | true =>
+          obtain ⟨hb, hp⟩ := skipped_true v hsk
+          exact absurd (by rw [hx, hb]) (c0 hp).2.2
+      simp only [this, Bool.false_eq_true, if_false, hv2, if_true, Option.map_some]
   refine ⟨d, i, h1, h2, e (·.width) (fun _ => rfl), e (·.height) (fun _ => rfl), e (·.depth) (fun _ => rfl),
     e (·.color) (fun _ => rfl), e (·.pixelDims) (fun _ => rfl), e (·.srgb) (fun _ => rfl), ?_, ?_, ?_, ?_,
     e (·.actl) (fun _ => rfl), ?_, ?_, h5⟩
@@ -396,23 +412,28 @@ theorem C17_header_roundtrip_partial (cfg : Cfg) (z : ZCodec) (hz : z.Ok) (hc : 
   · rw [e (·.palette) (fun _ => rfl)]; exact hplte
   · rw [e (·.trns) (fun _ => rfl)]; exact htrns
 
-/-- outside `Clean` the full statement fails: an empty EXIF block is not read back -/
+private def rgbaTrns : MetaConfig := { width := 1, height := 1, depth := 8, color := 6, trns := some [0, 7] }
+
+/-- outside `Clean` the full statement fails, whatever the switch says: a transparency given for an
+RGBA image is written by the encoder and skipped by the decoder -/
 theorem C17_header_roundtrip_counterexample : ¬ C17_header_roundtrip_statement := by
   intro h
-  obtain ⟨d, i, h1, h2, h3, _⟩ := h (cfgOf toyCodec) toyCodec toyCodec_ok ⟨fun _ _ => rfl, fun _ => rfl⟩
-    { width := 1, height := 1, depth := 8, color := 0, exif := some [] } (by decide)
-    [(IHDR, [0, 0, 0, 1, 0, 0, 0, 1, 8, 0, 0, 0, 0]), (eXIf, [])] (by decide) {} rfl rfl 0 (by decide)
-  obtain ⟨d', i', g1, g2, _, g4, _⟩ := C17_header_roundtrip (cfgOf toyCodec) toyCodec toyCodec_ok
-    ⟨fun _ _ => rfl, fun _ => rfl⟩ { width := 1, height := 1, depth := 8, color := 0, exif := some [] } (by decide)
-    [(IHDR, [0, 0, 0, 1, 0, 0, 0, 1, 8, 0, 0, 0, 0]), (eXIf, [])] (by decide) (by intro c hc; cases hc) {} rfl rfl 0
-    (by decide)
+  have hagree : CfgAgrees (cfgOf toyCodec) toyCodec := ⟨fun _ _ => rfl, fun _ => rfl⟩
+  obtain ⟨d, i, h1, h2, _, _, h5⟩ := h (cfgOf toyCodec) toyCodec toyCodec_ok hagree rgbaTrns (by decide)
+    [(IHDR, [0, 0, 0, 1, 0, 0, 0, 1, 8, 6, 0, 0, 0]), (tRNS, [0, 7])] (by decide) {} rfl rfl 2 (by decide)
+  obtain ⟨d', i', g1, g2, _, g4, _⟩ := C17_header_roundtrip (cfgOf toyCodec) toyCodec toyCodec_ok hagree rgbaTrns
+    (by decide) [(IHDR, [0, 0, 0, 1, 0, 0, 0, 1, 8, 6, 0, 0, 0]), (tRNS, [0, 7])] (by decide) {} rfl rfl 2 (by decide)
   rw [g1] at h1
   cases h1
   rw [g2] at h2
   cases h2
-  have : ({ i with text := [] } : Info).exif = none := by rw [g4]; rfl
-  rw [h3] at this
-  cases this
+  have : ({ i with text := [] } : Info).trns = none := by
+    rw [g4]
+    simp only [expectedInfo, rgbaTrns, trnsRead_some]
+    cases skipped [0, 7] <;> rfl
+  rw [show ({ i with text := [] } : Info).trns = i.trns from rfl, h5] at this
+  revert this
+  decide
 
 /-- every chunk of the header is taken in its position: feeding any prefix succeeds and the next
 chunk is then not refused -/
